@@ -205,6 +205,32 @@ def tie(ctx, model_ok=True):
                      [{'text': s, 'digest': d} for s, d in list(zip(allstr, impl))[-4:]]
     if not model_ok and False:
         return res
+    # the table must not depend on the history of the loader class: a second instance, an instance
+    # created after a load, and an instance of a class that had add_implicit_resolver() called on
+    # it before its first use must all resolve like the table the theorems were proved about
+    import re as _re
+    import yaml as _yaml
+    lf = yatiml.load_function()
+    lf('1.5')
+    v1 = lf.loader('')
+    lf2 = yatiml.load_function(str)
+    lf2.loader.add_implicit_resolver('!verif-zz', _re.compile(r'^zzverif$'), ['z'])
+    v2 = lf2.loader('')
+    lf2('x')
+    v3 = lf2.loader('')
+    for s in allstr:
+        want = objs[0].resolve(_yaml.ScalarNode, s, (True, False))
+        for name, v in (('second-instance', v1), ('class-with-added-resolver', v2), ('after-load', v3)):
+            got = v.resolve(_yaml.ScalarNode, s, (True, False))
+            if got != want:
+                r = e2e_oracle(lf2 if v is not v1 else lf, s) if v is v1 else None
+                res['failing'].append({'signature': f'table-depends-on-history:{name}',
+                                       'what': f'{name}: plain scalar {s!r} resolves to {got} instead of {want}',
+                                       'case': {'kind': 'variant', 'variant': name, 'text': s}})
+                break
+        else:
+            continue
+        break
     # model side, evaluated inside Coq
     alpha = '[' + '; '.join(str(ord(c)) for c in ALPHA) + ']'
     shards = []
@@ -278,6 +304,9 @@ def search(ctx, broken, details, tie_res):
 
 def replay(case):
     import yatiml
+    if case.get('kind') == 'variant':
+        r = tie({'tier': 'quick', 'seed': 0})
+        return any(f['signature'].startswith('table-depends-on-history') for f in r['failing'])
     load = yatiml.load_function()
     o = e2e_oracle(load, case['text'])
     if o:
